@@ -166,16 +166,68 @@ def index_case(v, shape, N, opts):
     if o["kind"] == "accept":
         asserts.append(("output_equals_input", H.equal_to_snapshot(v, o["out"], snap)))
         asserts.append(("kind_preserved", v.holds(kind_of_container(o["out"]) == kind_of_container(obj))))
+    if o["kind"] == "SchemaErrors" and shape == "frame_multiindex":
+        # the report names the offending (level, row label, value): the row label of a MultiIndex frame is the tuple of its levels
+        # (for a single Index the reported `index` is a position: known finding KF-C11-index-failure-positions, not asserted here)
+        dup0 = [zor(labs[0][i] == labs[0][j] for j in range(N) if j != i) for i in range(N)]
+        level_viol = {"k0": [z3.Or(labs[0][i] < v.z(ilo), z3.And(v.z(uniq), dup0[i])) for i in range(N)],
+                      "k1": [labs[1][i] > v.z(mlo) for i in range(N)]}
+        comp, sound = index_report_terms(v, o["fc"], level_viol, labs, {"k0": 0, "k1": 1})
+        asserts += [("report/index_labels_complete", v.holds(comp)), ("report/index_labels_sound", v.holds(sound))]
     return dict(obs=o, asserts=asserts, facts=dict(kind=o["kind"], reason=o.get("reason"), reasons=o.get("reasons")))
+
+
+def index_report_terms(v, fc, level_viol, labs, level_pos):
+    """every MultiIndex entry of the failure-case table names a (level, row label tuple, level value) of a violating row, and
+    every violating (level, row) is named.  fc: shim frame (terms) or real frame (constants)."""
+    slots = []
+    if isinstance(fc, symframe.DataFrame):
+        cols = {k: c for k, c in fc._cols}
+        for r in range(len(fc.present)):
+            if str(cols["schema_context"].vals[r]) != "MultiIndex":
+                continue
+            idx = cols["index"].vals[r]
+            idx = [getattr(x, "z", x) for x in idx] if isinstance(idx, tuple) else None
+            val = cols["failure_case"].vals[r]
+            slots.append(dict(p=z3.And(fc.present[r], z3.Not(cols["index"].nulls[r])), col=str(cols["column"].vals[r]), idx=idx, val=getattr(val, "z", val)))
+    else:
+        for _, r in fc.iterrows():
+            if str(r["schema_context"]) != "MultiIndex":
+                continue
+            try:
+                idx = [z3.IntVal(int(float(p))) for p in str(r["index"]).strip("()").split(",") if p.strip()]
+            except ValueError:
+                idx = None
+            try:
+                val = z3.IntVal(int(float(r["failure_case"])))
+            except (TypeError, ValueError):
+                val = None
+            slots.append(dict(p=z3.BoolVal(True), col=str(r["column"]), idx=idx, val=val))
+    nlev = len(labs)
+
+    def names_row(s, i, lvl):
+        if s["idx"] is None or len(s["idx"]) != nlev or s["val"] is None or not z3.is_expr(s["val"]):
+            return z3.BoolVal(False)
+        return z3.And(*[_num_eq(s["idx"][k], labs[k][i]) for k in range(nlev)], _num_eq(s["val"], labs[level_pos[lvl]][i]))
+
+    complete, sound = [], []
+    for lvl, ts in level_viol.items():
+        for i, t in enumerate(ts):
+            complete.append(z3.Implies(t, zor(z3.And(s["p"], names_row(s, i, lvl)) for s in slots if s["col"] == lvl)))
+    for s in slots:
+        ts = level_viol.get(s["col"])
+        sound.append(z3.Implies(s["p"], zor(z3.And(t, names_row(s, i, s["col"])) for i, t in enumerate(ts)) if ts is not None else z3.BoolVal(False)))
+    return zand(complete), zand(sound)
 
 
 def wide_case(v, shape, N, opts):
     """dataframe-level checks: a row-wise comparison of two columns, a scalar check, an element-wise column check, a groupby check"""
     lazy = bool(opts.get("lazy"))
     c = v.int("c")
-    df = v.frame([("a", "float", False), ("b", "int")], N, labels="l")
-    xa, _ = v.cells("a_", "float", N, False)
-    xb, _ = v.cells("b_", "int", N, False)
+    if shape != "frame_builtin":
+        df = v.frame([("a", "float", False), ("b", "int")], N, labels="l")
+        xa, _ = v.cells("a_", "float", N, False)
+        xb, _ = v.cells("b_", "int", N, False)
     R = lambda t: z3.ToReal(t) if z3.is_int(t) else t  # noqa: E731
     if shape == "rowwise":
         schema = pa.DataFrameSchema({"a": pa.Column(float), "b": pa.Column(int)}, checks=Check(lambda d: d["a"] >= d["b"]))
@@ -199,6 +251,13 @@ def wide_case(v, shape, N, opts):
 
         schema = pa.DataFrameSchema({"a": pa.Column(float, Check(gfn, groupby="k", groups=["x"])), "b": pa.Column(int), "k": pa.Column(str)})
         spec = zand(xa[i] > R(v.z(c)) for i in range(N) if keys[i] == "x")
+    elif shape == "frame_builtin":
+        # a built-in check attached to the schema itself is applied to every cell; null cells of nullable columns are ignored
+        df = v.frame([("a", "float"), ("b", "float")], N, labels="l")
+        xa, na = v.cells("a_", "float", N, True)
+        xb, nb = v.cells("b_", "float", N, True)
+        schema = pa.DataFrameSchema({"a": pa.Column(float, nullable=True), "b": pa.Column(float, nullable=True)}, checks=Check.ge(c))
+        spec = zand(z3.And(z3.Or(na[i], xa[i] >= R(v.z(c))), z3.Or(nb[i], xb[i] >= R(v.z(c)))) for i in range(N))
     elif shape == "two_checks":
         schema = pa.DataFrameSchema({"a": pa.Column(float, [Check.ge(c), Check.le(c + 5)]), "b": pa.Column(int, Check.ne(c))})
         spec = zand(z3.And(xa[i] >= R(v.z(c)), xa[i] <= R(v.z(c)) + 5, xb[i] != v.z(c)) for i in range(N))
@@ -274,6 +333,16 @@ def parse_case(v, arrangement, N, opts):
             asserts.append(("fixpoint_accepts_again", v.holds(o3["kind"] == "accept")))
             if o3["kind"] == "accept":
                 asserts.append(("fixpoint_identity", H.equal_to_snapshot(v, o3["out"], osnap)))
+        if is_frame(out) and opts.get("second_call"):
+            # the caller puts the raw values back into the frame validate returned (it carries the schema in its accessor) and
+            # validates that object again with the same schema: it is an input like any other
+            for c, _ in arr:
+                if c in out:
+                    out[c] = df[c]
+            snap2 = H.snapshot(out)
+            o4 = H.outcome(lambda: schema.validate(out, lazy=lazy))
+            facts["second_call"] = o4["kind"]
+            asserts.append(("input_unchanged/second_call_on_validated_frame", H.equal_to_snapshot(v, out, snap2)))
     return dict(obs=o, asserts=asserts, facts=facts)
 
 
@@ -473,8 +542,10 @@ def standard_cases(tier):
             ts.append((f"SI/val_coerce={int(vc)}/idx_coerce={int(ic)}/lazy={int(lazy)}/N={N}", series_index_case, (N, lazy, vc, ic)))
     for coerce, a_kind in ((None, "float"), ("col", "int"), ("schema", "int")):
         for default in (False, True):
-            for add_missing, arr in ((False, ["a", "b"]), (True, ["b"]), (False, ["a", "b", "x"])):
+            for add_missing, arr in ((False, ["a", "b"]), (True, ["b"]), (False, ["a", "b", "x"]), (True, ["b", "x"])):
                 for strict in (False, "filter"):
+                    if arr == ["b", "x"] and strict != "filter":
+                        continue  # (a missing column that may not be addable, next to a column that strict='filter' removes)
                     for drop in (False, True):
                         for index in (None, "coerce"):
                             c = dict(coerce=coerce, a_kind=a_kind, default=default, add_missing=add_missing, strict=strict, drop=drop, index=index)
@@ -485,6 +556,10 @@ def standard_cases(tier):
                                 cc = dict(c, lazy=lazy, distinct_labels=drop)
                                 tid = "P/" + "".join(arr) + "/" + "/".join(f"{k}={v}" for k, v in cc.items() if k != "distinct_labels")
                                 ts.append((tid, parse_case, (arr, N, cc)))
+    for arr, c in ((["a", "b"], dict(default=True)), (["a", "b"], dict(coerce="col", a_kind="int")), (["a", "b", "x"], dict(strict="filter"))):
+        for lazy in (False, True):  # a second validate call on the frame the first one returned, modified by the caller in between
+            cc = dict(c, lazy=lazy, second_call=True)
+            ts.append(("P2/" + "".join(arr) + "/" + "/".join(f"{k}={x}" for k, x in cc.items()), parse_case, (arr, N, cc)))
     for comp in ("column", "column_coerce", "column_default", "column_parser", "column_regex_parser", "index", "index_coerce", "multiindex", "multiindex_coerce",
                  "multiindex_coerce_swapped"):
         for lazy in (False, True):
@@ -492,7 +567,7 @@ def standard_cases(tier):
     for shape in ("frame_index", "series_index", "frame_multiindex"):
         for lazy in (False, True):
             ts.append((f"I/{shape}/lazy={int(lazy)}/N={N}", index_case, (shape, N, dict(lazy=lazy))))
-    for shape in ("rowwise", "scalar", "element_wise", "two_checks", "groupby"):
+    for shape in ("rowwise", "scalar", "element_wise", "two_checks", "groupby", "frame_builtin"):
         for lazy in (False, True):
             ts.append((f"W/{shape}/lazy={int(lazy)}/N={N}", wide_case, (shape, N, dict(lazy=lazy))))
     for c in (dict(coerce=True), dict(default=True), dict(drop=True), dict(coerce=True, default=True), dict(coerce=True, drop=True), dict(default=True, drop=True)):
@@ -666,6 +741,8 @@ def fault_case(v, shape, lazy, N, max_faults):
 
             eng().assume(z3.AtMost(*[z3.Bool(f"fail{k}") for k in range(12)], max_faults))
         if f:
+            if v.bool("bare"):  # an exception without arguments (`raise KeyError`), decided only where a fault fires
+                raise Injected()
             raise Injected(f"injected@{j}:{tag}")
 
     def vec(tag):
@@ -708,9 +785,16 @@ def fault_case(v, shape, lazy, N, max_faults):
         df = v.frame([("a1", "float"), ("b", "int")], N, labels="l", distinct_labels=True)
         from pandera import Parser
 
-        schema = pa.DataFrameSchema({"a1": pa.Column(float, Check(vec("c1")), parsers=Parser(parser("p1")), nullable=True), "b": pa.Column(int)},
+        schema = pa.DataFrameSchema({"a1": pa.Column(float, Check(vec("c1")), parsers=Parser(parser("p1")), nullable=True, coerce=True), "b": pa.Column(int)},
                                     parsers=Parser(parser("pdf")))
         user_checks = 1
+    elif shape == "parser_dtype":  # dataframe-level dtype: the component's dtype is overridden while it is validated
+        df = v.frame([("a1", "float"), ("b", "float")], N, labels="l", distinct_labels=True)
+        from pandera import Parser
+
+        schema = pa.DataFrameSchema({"a1": pa.Column(int, Check(vec("c1")), parsers=Parser(parser("p1")), nullable=True), "b": pa.Column(checks=Check(vec("c2")))},
+                                    dtype=float)
+        user_checks = 2
     elif shape == "groupby":
         df = v.frame([("a1", "float", False), ("b", "int")], N, labels="l", distinct_labels=True)
 
@@ -727,16 +811,16 @@ def fault_case(v, shape, lazy, N, max_faults):
     o = H.outcome(lambda: schema.validate(df, lazy=lazy))
     faults = [bool(f) if not v.sym else None for f in flags]
     n_injected = len([c for c in calls]) and sum(1 for k in range(len(flags)) if _flag_true(v, flags[k]))
-    asserts = [("fault/channel", v.holds(channel_ok(o) or (shape == "parser" and o["kind"] == "leak:Injected"))),
+    asserts = [("fault/channel", v.holds(channel_ok(o) or (shape.startswith("parser") and o["kind"] == "leak:Injected"))),
                ("fault/input_unchanged", H.equal_to_snapshot(v, df, snap)),
                ("fault/schema_unchanged", v.holds(fingerprint(schema) == fp0)),
                ("fault/config_unchanged", v.holds(config_fingerprint() == cfg0))]
-    if n_injected and shape != "parser":
+    if n_injected and not (shape.startswith("parser") and any(c.startswith("p") for c in calls[-1:])):
         # a raising user check is reported as a failed check
         asserts.append(("fault/reported_as_failed_check", v.holds(o["kind"] in ("SchemaError", "SchemaErrors"))))
         if o["kind"] == "SchemaErrors":
             asserts.append(("fault/reason_check_error", v.holds("CHECK_ERROR" in o["reasons"])))
-    if n_injected and shape == "parser":
+    if n_injected and shape.startswith("parser"):
         asserts.append(("fault/parser_error_propagates", v.holds(o["kind"] != "accept")))
     return dict(obs=o, asserts=asserts, facts=dict(kind=o["kind"], reason=o.get("reason"), reasons=o.get("reasons"), calls=list(calls),
                                                    injected=n_injected, msg=o.get("msg")))
@@ -894,7 +978,8 @@ def lazy_case(v, shape, N, opts):
         fb = O.FieldSpec("int", checks=[cb])
         key_a = opts.get("regex") or "a"
         spec = O.FrameSpec({key_a: fa, "b": fb}, strict=opts.get("strict", False), unique=opts.get("unique"), report_duplicates=opts.get("rd", "all"))
-        schema = spec.build(pa, Check)
+        # index_coerce_float: an Index(float, coerce=True) over integer row labels always conforms after coercion
+        schema = spec.build(pa, Check, **({"index": pa.Index(float, coerce=True)} if opts.get("index_coerce_float") else {}))
         cells = {c: v.cells(f"{c}_", k, N, k in ("float", "str")) for c, k in arr}
         viol = {k: ts for k, ts in spec.row_violations(v, arr, cells).items()}
         frame_level = []
@@ -931,6 +1016,11 @@ def lazy_case(v, shape, N, opts):
         lazy_keys = [(str(x.reason_code), _err_check_id(x), str(getattr(x.schema, "name", None))) for x in ol["exc"].schema_errors]
         asserts.append(("eager_error_among_lazy", v.holds(key in lazy_keys)))
         facts["eager_key"] = list(key)
+    if ol["kind"] == "SchemaErrors" and opts.get("index_coerce_float"):
+        # no entry for a conforming component: the index coerces, whatever happens to the columns
+        ctxs = sorted({type(x.schema).__name__ for x in ol["exc"].schema_errors})
+        asserts.append(("report/no_entry_for_conforming_index", v.holds("Index" not in ctxs)))
+        facts["error_schemas"] = ctxs
     if ol["kind"] == "SchemaErrors" and (depth or opts.get("coerce_a_int")):
         # under a restricted depth / with coercion only the depth-independent clauses are asserted: the counts per reason equal
         # the number of collected errors with that reason
